@@ -87,6 +87,72 @@ def cbor_inputs(rng, n, tier):
     return out
 
 
+def clean_for(fmt, v):
+    """restrict a generated value to what the format's reference encoder can express"""
+    if isinstance(v, Tagged):
+        if fmt == "bson" and v.tag == "epoch_milli":
+            return v
+        return clean_for(fmt, v.value)
+    if isinstance(v, tuple) and v[0] == "e":
+        return ("d", 0x3ff0000000000000)
+    if isinstance(v, tuple) and v[0] == "f32" and fmt == "bson":
+        return ("d", 0x3ff8000000000000)
+    if isinstance(v, tuple) and v[0] == "b" and fmt == "bson":
+        return v[1].decode("latin-1").encode("utf-8").replace(b"\x00", b"?")
+    if isinstance(v, int) and not isinstance(v, bool):
+        if fmt in ("ubjson", "bson") and not (-2 ** 63 <= v < 2 ** 63):
+            return v % 1000
+        if fmt == "msgpack" and not (-2 ** 63 <= v < 2 ** 64):
+            return v % 1000
+    if isinstance(v, bytes) and fmt == "bson":
+        return v.replace(b"\x00", b"?")
+    if isinstance(v, list):
+        return [clean_for(fmt, x) for x in v]
+    if isinstance(v, Obj):
+        ms = [(k.replace(b"\x00", b"?") if fmt == "bson" else k, clean_for(fmt, x)) for k, x in v.members]
+        return Obj(ms)
+    return v
+
+
+ENCODERS = {"msgpack": binfmt.mp_encode, "ubjson": binfmt.ub_encode, "bson": binfmt.bson_encode}
+
+
+def fmt_inputs(fmt, rng, n, tier):
+    out = []
+    enc = ENCODERS[fmt]
+    for _ in range(n):
+        v = clean_for(fmt, gen_value(rng, rng.randint(0, 3), fmt))
+        if fmt == "bson" and rng.random() < 0.2:
+            v = Obj([(b"t", Tagged("epoch_milli", rng.choice([0, 1, -1, 1363896240123, -2 ** 63, 2 ** 63 - 1])))] + (v.members if isinstance(v, Obj) else []))
+        b = enc(v, rng, minimal=rng.random() < 0.3)
+        out.append(b)
+        r = rng.random()
+        if r < 0.3:
+            out.append(binfmt.mutate_bytes(rng, b, (0x00, 0x01, 0x7f, 0x80, 0xff, 0xc1, 0xc0, 0xd9, 0xdc, 0xdf, 0x24, 0x23, 0x5b, 0x5d, 0x7b, 0x7d, 0x4e, 0x53, 0x10)))
+        elif r < 0.4:
+            out.append(b[:rng.randrange(len(b) + 1)])
+        elif r < 0.45:
+            out.append(binfmt.mutate_bytes(rng, binfmt.mutate_bytes(rng, b)))
+    if fmt == "ubjson":
+        # containers whose members are all containers: exercises the strongly typed `$[` / `${` forms
+        for _ in range(150 if tier == "quick" else 1500):
+            inner = lambda: rng.choice([[], [rng.randint(-3, 300)], [None, True], Obj([]), Obj([(b"k", rng.randint(0, 9))])])
+            kind_list = rng.random() < 0.5
+            mk = (lambda: [x for x in [inner()] if isinstance(x, list)] or [[]])
+            vals = []
+            for _ in range(rng.randint(1, 3)):
+                x = inner()
+                while isinstance(x, list) != kind_list:
+                    x = inner()
+                vals.append(x)
+            v = Obj([(rng.choice([b"a", b"b", b"c", b"dd"]) + bytes([97 + i]), x) for i, x in enumerate(vals)]) if rng.random() < 0.6 else vals
+            out.append(enc(v, rng, minimal=False))
+    for _ in range(8 if tier == "quick" else 60):
+        b = enc(clean_for(fmt, gen_value(rng, 2, fmt)), rng, minimal=False)
+        out += [b[:i] for i in range(len(b))][:60]
+    return out
+
+
 def cbor_exhaustive(maxlen, rng=None, sample=None):
     out = [bytes([a]) for a in range(256)]
     if maxlen >= 2:
@@ -126,6 +192,37 @@ def judge(fmt, kind, impl, ref):
     if have != want:
         return "decoded value differs from the one the %s specification assigns: got %s, want %s" % (fmt, impl[3:120], ref[3:120])
     return None
+
+
+def _bson_lenient(line, impl, which):
+    t = line.split()
+    if t[0] != "bin" or t[1] != "dec" or t[2] != "bson" or not impl.startswith("ok"):
+        return False
+    data = bytes.fromhex(t[5][1:])
+    try:
+        binfmt.bson_walk(data)
+        return False                      # well-formed: not this finding
+    except binfmt._Ill:
+        pass
+    except Exception:
+        return False
+    try:
+        used = binfmt.bson_walk(data, lenient_bool=(which == "bool"), lenient_strterm=(which == "strterm"))
+    except Exception:
+        return False
+    return used == {which}
+
+
+@vlib.known_matcher("D24")
+def _match_d24(stream, line, impl, model):
+    """BSON boolean element whose byte is neither 0x00 nor 0x01 is decoded as true (otherwise well-formed input)"""
+    return _bson_lenient(line, impl, "bool")
+
+
+@vlib.known_matcher("D25")
+def _match_d25(stream, line, impl, model):
+    """BSON string whose last byte is not 0x00 is accepted, the byte silently dropped (otherwise well-formed input)"""
+    return _bson_lenient(line, impl, "strterm")
 
 
 def has_sub_int64(v):
@@ -175,6 +272,13 @@ def streams(ctx, rng, scale):
     ctx.correspond("cbor-generated", HARNESS, lc, oracle, nontrivial, ref_lines=with_ref(lc), want_model=False)
     le = [dec_line("cbor", "j", b) for b in cbor_exhaustive(2 if ctx.tier == "quick" else 3, rng, 200000)]
     ctx.correspond("cbor-exhaustive-short", HARNESS, le, oracle, nontrivial, ref_lines=with_ref(le), want_model=False)
+    for fmt in ("msgpack", "ubjson", "bson"):
+        fo = "m4096" if fmt == "ubjson" else "-"       # keep hostile counts from building 16M-element arrays in the harness
+        lf = [dec_line(fmt, "j" if rng.random() < 0.7 else "o", b, fo) for b in fmt_inputs(fmt, rng, 1500 * scale, ctx.tier)]
+        ctx.correspond(fmt + "-generated", HARNESS, lf, oracle, nontrivial, ref_lines=with_ref(lf), want_model=False)
+        if fmt != "bson":
+            lx = [dec_line(fmt, "j", b, "m4096" if fmt == "ubjson" else "-") for b in cbor_exhaustive(2 if ctx.tier == "quick" else 3, rng, 100000)]
+            ctx.correspond(fmt + "-exhaustive-short", HARNESS, lx, oracle, nontrivial, ref_lines=with_ref(lx), want_model=False)
 
 
 def run(ctx):
